@@ -27,9 +27,9 @@ def mc_jobs(ctx):
         ("windows", {"DeclSet": "{7, 8}", "SubSet": '{"dm", "legacy"}', "Eager": "FALSE", "MaxGen": 3, "MaxSteps": 4 if q else 6,
                      "Acts": acts("define", "del", "push", "clear", "fire", "set", "call", "unload")}, inv, prop, None),
     ]
-    # file contents with two definitions (also of the same name), one context
+    # file contents with two definitions (also of the same name), one context; contents whose top level fails after them
     jobs.append(("contents2", {"DeclSet": "{4, 7}", "StartedSet": "{TRUE, FALSE}", "MaxDefs": 2, "MaxSteps": 2 if q else 3,
-                               "Acts": acts("boot", "reload", "del", "close", "fire", "call")}, inv, prop, None))
+                               "Acts": acts("boot", "reload", "fail", "del", "close", "fire", "call")}, inv, prop, None))
     if not q:
         jobs.append(("session", {"DeclSet": "{6, 8}", "Ctx": '{"c1", "c3"}', "Name": '{"f"}', "MaxSteps": 5,
                                  "Acts": acts("define", "del", "push", "clear", "close", "reload", "unload", "fire")}, inv, prop, None))
@@ -37,7 +37,17 @@ def mc_jobs(ctx):
     jobs.append(("rush", {"DeclSet": "{4, 8}", "Ctx": '{"c1", "c3"}', "Name": '{"f"}', "Rush": "TRUE", "MaxGen": 3,
                           "SubSet": '{"dm", "legacy"}', "MaxSteps": 3 if q else 4,
                           "Acts": acts("define", "del", "reload", "close", "unload", "fire", "set", "call")}, inv, prop, None))
+    # a module (c4) loaded by an import executed at run time (statement / cell / inside a running function) or at the
+    # top of a file being loaded; contents whose top level fails after their definitions
+    jobs.append(("modules", {"DeclSet": "{7, 8}", "Ctx": '{"c1", "c3", "c4"}', "Name": '{"f"}', "Vias": '{"exec", "run"}', "MaxGen": 3,
+                             "MaxSteps": 3 if q else 4, "SubSet": '{"dm"}' if q else '{"dm", "legacy"}',
+                             "Acts": (acts("import", "fail", "reload", "close", "define", "del", "fire", "unload") if q else
+                                      acts("import", "fail", "reload", "close", "define", "del", "fire", "set", "call", "unload"))},
+                 inv, prop, None))
     # deviation flags: the invariant each one violates
+    jobs.append(("flag:session-import-module-not-started",
+                 {"FlagSets": '{{"session-import-module-not-started"}}', "DeclSet": "{4}", "Ctx": '{"c3", "c4"}', "MaxSteps": 1,
+                  "SubSet": '{"dm", "legacy"}', "Acts": acts("import")}, inv, prop, {"ActiveIffReferencedAndLoaded"}))
     jobs += [
         ("flag:legacy-stop-before-first-run-leaks", {"FlagSets": '{{"legacy-stop-before-first-run-leaks"}}', "SubSet": '{"legacy"}',
                                                      "DeclSet": "{4}", "Ctx": '{"c3"}', "Rush": "TRUE", "MaxSteps": 2,
@@ -55,6 +65,9 @@ def mc_jobs(ctx):
     ]
     for w in ("W_NoUnloadAfterActivity", "W_NoShutdownRun", "W_NoClosureHeld"):
         jobs.append((w, {"DeclSet": "{7}", "Name": '{"f"}', "MaxSteps": 4, "Acts": acts("define", "del", "push", "unload")},
+                     [w], [], {w}))
+    for w, a in (("W_NoModuleOutlivesImporter", acts("import", "reload")), ("W_NoFailedLoad", acts("reload", "fail"))):
+        jobs.append((w, {"DeclSet": "{12}", "Name": '{"f"}', "Ctx": '{"c1", "c4"}', "Vias": '{"run"}', "MaxSteps": 2, "Acts": a},
                      [w], [], {w}))
     return jobs
 
